@@ -7,8 +7,10 @@ EXTENDS Cleaner, TLC, Json
 CONSTANTS MaxRecs, MaxBatch, MaxOps, MaxEpoch, CapSet, KeySet, AgeSet, MsgsSet, BytesSet,
           CompactSet, LagSet, BigSet, MaxCleans, MaxTicks, UseWindow, UseReopen, UseEpochs, UseReaders, OccSet,
           MinCleanSegs   \* stimulus generation: cleans start only on logs with at least this many segments
-VARIABLES last, nRecs, nOps, nCleans, nTicks
-mcvars == <<cvars, last, nRecs, nOps, nCleans, nTicks>>
+VARIABLES last, nRecs, nOps, nCleans, nTicks,
+          recUpTo   \* ghost: segments with a base below this offset were opened from disk (reopen) or
+                    \* swapped in by Replace (compaction) - their write times come from the index
+mcvars == <<cvars, last, nRecs, nOps, nCleans, nTicks, recUpTo>>
 
 Rec(i, k, big, e, t, x) == [ep |-> e, ts |-> t, key |-> k, val |-> i, hdr |-> "h",
                             sz |-> IF big THEN 2 ELSE 1, fp |-> i, exp |-> x]
@@ -16,7 +18,13 @@ Rec(i, k, big, e, t, x) == [ep |-> e, ts |-> t, key |-> k, val |-> i, hdr |-> "h
 CurEpoch == IF log = <<>> THEN LatestEpoch(epochs)
             ELSE IF Last(log).ep > LatestEpoch(epochs) THEN Last(log).ep ELSE LatestEpoch(epochs)
 
-Step(a) == /\ nOps < MaxOps /\ nOps' = nOps + 1 /\ last' = a
+RecAfter(name) ==
+  LET mx(x, y) == IF x > y THEN x ELSE y IN
+  CASE name = "Reopen" -> NextOff
+    [] name = "Clean" /\ cc.compact /\ Len(segs) > 1 -> mx(recUpTo, Last(segs).base)
+    [] name = "CleanEnd" /\ cc.compact /\ Len(pend.segs) > 1 -> mx(recUpTo, Last(pend.segs).base)
+    [] OTHER -> recUpTo
+Step(a) == /\ nOps < MaxOps /\ nOps' = nOps + 1 /\ last' = a /\ recUpTo' = RecAfter(a.a)
 
 MCInit ==
   /\ cfg \in [maxBytes : CapSet, occ : OccSet]
@@ -27,7 +35,7 @@ MCInit ==
   /\ cc \in [age : AgeSet, msgs : MsgsSet, bytes : BytesSet, compact : CompactSet, workers : {1}]
   /\ (cc.compact \/ HasLimits(cc))
   /\ now = 10 /\ pend = NoPend
-  /\ last = [a |-> "Open"] /\ nRecs = 0 /\ nOps = 0 /\ nCleans = 0 /\ nTicks = 0
+  /\ last = [a |-> "Open"] /\ nRecs = 0 /\ nOps = 0 /\ nCleans = 0 /\ nTicks = 0 /\ recUpTo = 0
 
 \* a batch of n records with keys ks[1..n]; the clock advances by one per record,
 \* timestamps = clock - lag (lag > 0: non-monotone write times)
@@ -78,6 +86,15 @@ CleanClass ==
                       ELSE IF log[i].key = "nil" THEN "N"
                       ELSE IF log[i].off = LatestOff(log, hw, log[i].key) THEN "L" ELSE "D"]
               ELSE <<>>,
+      \* fv = the same classes for the FIRST write of each non-last segment (a segment
+      \* may straddle the cut-off), rv = "r" if the segment object was set up from
+      \* the index (after a reopen / Replace), "w" if it was written in this process
+      fv  |-> IF cc.age > 0
+              THEN [k \in 1..n - 1 |-> LET r == SegRecs(log, segs, k) IN
+                      IF r = <<>> THEN "-" ELSE IF r[1].ts < t THEN "O"
+                      ELSE IF r[1].ts = t THEN "E" ELSE "Y"]
+              ELSE <<>>,
+      rv  |-> [k \in 1..n - 1 |-> IF segs[k].base < recUpTo THEN "r" ELSE "w"],
       av  |-> IF cc.age > 0
               THEN [k \in 1..n - 1 |-> IF SegLwt(log, segs, k) < t THEN "O"
                                        ELSE IF SegLwt(log, segs, k) = t THEN "E" ELSE "Y"]
